@@ -528,21 +528,60 @@ class C05(Check):
             return ent[4] is not None and any(o == ent[4] and snaps[fid_]["pos"] <= dp <= pos for o, dp in obs["deaths"])
         def spent(fid_, ent):
             return claim and ent[2] and (fired[(snaps[fid_]["s"], ent[3])] > 0 or removing)
-        for i, e in enumerate(log):
-            if e[0] != "call": continue
-            fid_, hid = e[1], e[3]
-            t = snaps.get(fid_)
-            if t is None: return "delivery: handler invoked with an event nobody raised"
-            S, k = t["snap"], ptr.get(fid_, 0)
-            while k < len(S):
-                ent = S[k]
-                if ent[1] == hid and not dead_at(fid_, ent, i) and not (claim and ent[2] and fired[(t["s"], ent[3])] > 0): break
-                if not (dead_at(fid_, ent, i) or spent(fid_, ent)): k = len(S) + 1; break
-                k += 1
-            if k >= len(S):
-                bad.setdefault(fid_, True); continue
-            matched.setdefault(fid_, []).append(S[k]); ptr[fid_] = k + 1
-            if S[k][2]: fired[(t["s"], S[k][3])] += 1
+        call_events = [(i, e[1], e[3]) for i, e in enumerate(log) if e[0] == "call"]
+        for _, fid_, _ in call_events:
+            if fid_ not in snaps: return "delivery: handler invoked with an event nobody raised"
+        budget = [4000]
+        def ends_ok(ptr_):
+            # cheap necessary condition used to choose between alignments: every delivery's unreached tail is excusable or cut off
+            for fid_, t in snaps.items():
+                if not declared(t["s"], t["et"]): continue
+                R_, C_ = rets.get(fid_, []), calls.get(fid_, [])
+                tail_ = t["snap"][ptr_.get(fid_, 0):]
+                if all(dead_at(fid_, e_, len(log)) or spent(fid_, e_) for e_ in tail_): continue
+                if R_ and len(R_) == len(C_) and self._stops(R_[-1][2], R_[-1][3]): continue
+                if (t["result"] == ["exc", "revent"] or (t["noerr"] and t["result"] == "none")) and tail_ and dead_at(fid_, tail_[0], len(log)): continue
+                return False
+            return True
+        def assign(n, ptr_, matched_, bad_):
+            """walk the invocations in time order; returns (ptr, matched, bad) of the first alignment that has no mismatch and ends
+            well, else of the first alignment tried"""
+            nonlocal fired
+            first = None
+            while n < len(call_events):
+                i, fid_, hid = call_events[n]
+                t = snaps[fid_]
+                S, k = t["snap"], ptr_.get(fid_, 0)
+                choice = None
+                while k < len(S):
+                    ent = S[k]
+                    takes = ent[1] == hid and not dead_at(fid_, ent, i) and not (claim and ent[2] and fired[(t["s"], ent[3])] > 0)
+                    skippable = dead_at(fid_, ent, i) or spent(fid_, ent)
+                    if takes and skippable and budget[0] > 0:
+                        # a one-shot entry that may have been unsubscribed meanwhile: try "it was skipped" as well
+                        budget[0] -= 1
+                        saved = (dict(ptr_), {f: list(l) for f, l in matched_.items()}, dict(bad_), collections.Counter(fired))
+                        p2 = dict(ptr_); p2[fid_] = k + 1
+                        m2 = {f: list(l) for f, l in matched_.items()}; m2.setdefault(fid_, []).append(ent)
+                        if ent[2]: fired[(t["s"], ent[3])] += 1
+                        r_ = assign(n + 1, p2, m2, dict(bad_))
+                        if not r_[2] and ends_ok(r_[0]): return r_
+                        if first is None: first = r_
+                        ptr_, matched_, bad_, fired = saved[0], saved[1], saved[2], saved[3]
+                        k += 1; continue
+                    if takes: choice = k; break
+                    if not skippable: break
+                    k += 1
+                if choice is None:
+                    bad_[fid_] = True
+                else:
+                    matched_.setdefault(fid_, []).append(S[choice]); ptr_[fid_] = choice + 1
+                    if S[choice][2]: fired[(t["s"], S[choice][3])] += 1
+                n += 1
+            if first is not None and (bad_ or not ends_ok(ptr_)): return first
+            return (ptr_, matched_, bad_)
+        ptr, matched, bad = assign(0, {}, {}, {})
+        fired = collections.Counter((snaps[f]["s"], e_[3]) for f, l in matched.items() for e_ in l if e_[2])
         for fid, s in sorted(snaps.items()):
             S, C, R = s["snap"], calls.get(fid, []), rets.get(fid, [])
             want = [e[1] for e in S]
